@@ -149,8 +149,6 @@ val take_doc : nat -> doc list -> (doc * doc list) option
 
 val has_close : nat -> doc -> bool
 
-val has_open : doc -> bool
-
 val after_open : nat -> item list -> item list option
 
 val until_close : nat -> item list -> item list option
@@ -177,9 +175,9 @@ val clear_hole : nat -> item list -> item list
 
 val spec_step : spec -> op -> spec
 
-val wf_op : bool -> spec -> op -> bool
+val wf_op : spec -> op -> bool
 
-val wf_hist : bool -> spec -> op list -> bool
+val wf_hist : spec -> op list -> bool
 
 val spec_run : op list -> spec
 
